@@ -1044,7 +1044,10 @@ def spec_lean(sp):
 def fmt_tolerance(fmt):
     """(relative, absolute) error bound IN FILE UNITS of printing a float with `fmt` and parsing it again -- the bounds
     proved in Props/C12.lean for the same `Spec` (fix_error_bound, sig_error_bound; repr/int exact)"""
-    sp = fmt_spec(fmt)
+    return spec_tolerance(fmt_spec(fmt))
+
+
+def spec_tolerance(sp):
     if sp[0] == "sig":
         return (0.5 * 10.0 ** (1 - sp[1]), 0.0)
     if sp[0] == "fixed":
@@ -1063,6 +1066,7 @@ class Precision:
         self.wntr = wntr
         self.rows = rows
         self.cache = {}
+        self.req = {(wsec, w): need for (_, wsec, w, wt, need) in precision_requirements()}
 
     def lookup(self, cls, key, alt=None, whint=None):
         k = (cls, key, alt, whint)
@@ -1108,12 +1112,16 @@ class Precision:
         if got is None:
             return abs(a - b) <= self.ROUND * max(abs(a), abs(b)), "no format found for %s.%s: exact" % (cls, key)
         row, sec = got
-        tol = fmt_tolerance(row["fmt"])
+        # the bound is the one REQUIRED of the slot (Gen.precisionReq, theorem inp_field_precision); a slot without a
+        # requirement is held to the format it is printed with
+        need = self.req.get((row["sec"], row["name"]))
+        tol = spec_tolerance(need) if need is not None else fmt_tolerance(row["fmt"])
         if tol is None:
             return abs(a - b) <= self.ROUND * max(abs(a), abs(b)), "format %r not numeric: exact" % row["fmt"]
         fa, fb = self.to_file(row, units, wn, a), self.to_file(row, units, wn, b)
         bound = tol[0] * abs(fa) * (1 + 1e-9) + tol[1] * (1 + 1e-9) + self.ROUND * max(abs(fa), abs(fb)) + 1e-300
-        return abs(fa - fb) <= bound, "[%s] %s written as {:%s}: |%.17g - %.17g| vs %.3g in file units" % (sec, key, row["fmt"], fa, fb, bound)
+        return abs(fa - fb) <= bound, "[%s] %s written as {:%s}, required %s: |%.17g - %.17g| vs %.3g in file units" % (
+            sec, key, row["fmt"], "-".join(map(str, need)) if need else "-", fa, fb, bound)
 
 
 # ================================================================================================ comparison
@@ -1347,8 +1355,10 @@ class Comparer:
 
     def rule_plain(self, path, x, y, label):
         # unconverted rule values are printed with the same {:.6g} (translator: RULES rows without conversion)
-        if x != y and not (isinstance(x, (int, float)) and isinstance(y, (int, float)) and abs(x - y) <= 0.5e-5 * abs(x) * (1 + 1e-9)):
-            self.fail("rules-%s-value" % label, path, x, y, "{:.6g}")
+        need = self.p.req.get(("RULES", "local:action._repr_value()")) or ("sig", 6)
+        rel = spec_tolerance(need)[0]
+        if x != y and not (isinstance(x, (int, float)) and isinstance(y, (int, float)) and abs(x - y) <= rel * abs(x) * (1 + 1e-9)):
+            self.fail("rules-%s-value" % label, path, x, y, "required %s" % (need,))
 
     def actions(self, sec, path, xs, ys, phase):
         if len(xs) != len(ys):
